@@ -38,8 +38,8 @@ META['C04'] = dict(
     technique='differential property-based testing (rapidcheck + instruction-wise delta-debugging minimiser) and coverage-guided fuzzing (libFuzzer), interpreter vs x86 JIT',
 )
 META['C07'] = dict(
-    text='Three generated checks: branch-constant arithmetic on the decoder\'s own constants (3M quick / 200M thorough triples with forced carry patterns), structural '
-         'invariant over decoded bytecode and the JIT\'s emitted jz displacements (20k / 1M programs), and instruction counting while stepping the interpreter plus JIT '
+    text='Three generated checks: branch-constant arithmetic on the decoder\'s own constants (12M quick / 200M thorough triples with forced carry patterns), structural '
+         'invariant over decoded bytecode and the JIT\'s emitted jz displacements (60k / 1M programs), and instruction counting while stepping the interpreter plus JIT '
          'equality on branch-heavy programs under a per-case hang watchdog. The universal arithmetic claim is sampled, not proved.',
     note='Trusted: harness reading of the bytecode fields; per-case 300 s watchdog (>1000x a normal case) is the only clock and a timeout must reproduce 3 times.',
     technique='property-based testing (rapidcheck): arithmetic invariant + structural validity predicate + step-counting invariant',
@@ -70,7 +70,7 @@ META['C02'] = dict(
 
 META['C09'] = dict(
     text='Generated keys -> the eight generated programs are checked against a validity predicate (the operand rules native back-ends rely on), against an independent model of the generator '
-         'instruction for instruction, and executed in the interpreter and in the natively generated x86 code for generated register values. The native-vs-interpreter part also runs the programs with boundary values substituted for their immediates (imm8 / sign-extension corners of the code generator). 16k keys (128k programs) quick / 2M keys thorough.',
+         'instruction for instruction, and executed in the interpreter and in the natively generated x86 code for generated register values. The native-vs-interpreter part also runs the programs with boundary values substituted for their immediates (imm8 / sign-extension corners of the code generator). 48k keys (384k programs) quick / 2M keys thorough.',
     note='Trusted: the model generator for oracle B (its under-specified parts are pinned to upstream and validated through the published digests); oracle A and C do not depend on it.',
     technique='property-based testing (rapidcheck): validity predicate + reference model + interpreter/native differential',
 )
@@ -82,7 +82,7 @@ META['C10'] = dict(
 )
 META['C08'] = dict(
     text='Generated (start,count) partitions and thread assignments for both dataset initialisers on a dataset whose pages are inaccessible except for the requested, canary-filled ranges; every requested '
-         'item compared with the light-mode computation and the specification model. 3k call sets quick / 150k + two complete datasets thorough. Schedules are whatever the OS produces for the generated thread assignment.',
+         'item compared with the light-mode computation and the specification model. 6k call sets quick / 150k + two complete datasets thorough. Schedules are whatever the OS produces for the generated thread assignment.',
     note='Trusted: model item construction (ch.7.3) for the three-way comparison; thread interleavings are not controlled, only varied.',
     technique='property-based testing (rapidcheck): differential (compiled/interpreted/light/model) + page-protection and canary invariants',
 )
@@ -139,7 +139,7 @@ META['C17'] = dict(
 META['C19'] = dict(
     text='Translation-style differential by generated programs: the ARM64 emitter (portable C++) runs on the host and emits real A64 code next to the cross-assembled hand-written runtime; an instruction-subset emulator '
          'executes it with all memory accesses region-checked; register file, scratchpad and rounding mode must equal the host interpreter on the same injected program; the emitted dataset-init code must reproduce '
-         'interpreter items. 320 programs + 64 ranges (half of them over SuperscalarHash programs with boundary immediates) quick / 12k + 2.4k thorough. Found and fixed: ISUB_R with imm32 = 0x80000000.',
+         'interpreter items. 640 programs + 128 ranges (half of them over SuperscalarHash programs with boundary immediates) quick / 12k + 2.4k thorough. Found and fixed: ISUB_R with imm32 = 0x80000000.',
     note='Trusted: the emulator (emu/a64.hpp, ~60 instruction forms; decode of every executed word cross-checked against llvm-objdump; semantics validated only indirectly by full agreement with the interpreter on the unchanged tree). '
          'The aarch64-only eMask copy in CompiledVm::execute is done by the harness (blind spot).',
     technique='differential property-based testing (rapidcheck) of emitted AArch64 code under an instruction-subset emulator vs the interpreter',
@@ -147,7 +147,7 @@ META['C19'] = dict(
 
 META['C20'] = dict(
     text='Same construction as C19 for the scalar RISC-V back-end: host-run emitter + cross-assembled runtime + RV64GC instruction-subset emulator (RV64IMD, Zicsr frm, C) with region-checked memory, compared with the host '
-         'interpreter on generated programs and with interpreter dataset items. 320 programs + 64 ranges (half of them over SuperscalarHash programs with boundary immediates) quick / 12k + 2.4k thorough. Found and fixed: ISUB_R with imm32 = 0x80000000.',
+         'interpreter on generated programs and with interpreter dataset items. 640 programs + 128 ranges (half of them over SuperscalarHash programs with boundary immediates) quick / 12k + 2.4k thorough. Found and fixed: ISUB_R with imm32 = 0x80000000.',
     note='Trusted: the emulator (emu/rv64.hpp; decode of every executed word cross-checked against llvm-objdump; semantics validated indirectly by full agreement with the interpreter on the unchanged tree). Zba/Zbb #ifdef paths and the vector back-end are not compiled.',
     technique='differential property-based testing (rapidcheck) of emitted RV64GC code under an instruction-subset emulator vs the interpreter',
 )
